@@ -1,5 +1,6 @@
 import MgpuProofs.C13Writer
 import MgpuProofs.Props.C13Elf
+import MgpuProofs.Props.C13Frame
 /-!
 # C13 — a general ELF writer and `parse (writeElf spec) = spec`
 
@@ -78,6 +79,42 @@ table, a non-empty `SHT_NOBITS` section are refused -/
 example : Elf.specWF { exSpec with secs := [{ name := [46, 0, 116], type := 1, flags := 0, addr := 0, link := 0, data := [] }] } = false ∧
     Elf.specWF { exSpec with secs := [{ name := [46], type := 2, flags := 0, addr := 0, link := 0, data := [] }] } = false ∧
     Elf.specWF { exSpec with secs := [{ name := [46], type := 8, flags := 0, addr := 0, link := 0, data := [1] }] } = false := by
+  decide +kernel
+
+/-! ### writer and frame together: two kernels with descriptors -/
+
+/-- `.rodata` at 0x400 with two 64-byte descriptors, `.text` at 0x1000 with kernels `a` (4 bytes)
+and `b` (8 bytes), symbols `b`, `a.kd`, `a`, `b.kd` -/
+def twoSpec : Elf.Spec :=
+  { etype := 3, machine := 224, entry := 0, eflags := 0
+    secs := [{ name := [46, 114, 111, 100, 97, 116, 97], type := 1, flags := 2, addr := 0x400, link := 0,
+               data := List.replicate 64 1 ++ List.replicate 64 2 },
+             { name := [46, 116, 101, 120, 116], type := 1, flags := 6, addr := 0x1000, link := 0,
+               data := [0, 1, 2, 3, 0, 5, 6, 7, 8, 9, 10, 11] }]
+    syms := [{ name := [98], value := 0x1004, size := 8, shndx := 2 },
+             { name := [97, 46, 107, 100], value := 0x400, size := 64, shndx := 1 },
+             { name := [97], value := 0x1000, size := 4, shndx := 2 },
+             { name := [98, 46, 107, 100], value := 0x440, size := 64, shndx := 1 }] }
+
+def twoFile : Bytes := Elf.writeElf twoSpec
+/-- kernel `b`'s first code byte and a byte of `b`'s descriptor overwritten -/
+def twoPoked : Bytes := Elf.poke (Elf.poke twoFile (Elf.baseOff twoSpec + 128 + 5) 0xEE) (Elf.baseOff twoSpec + 64 + 4) 0xEE
+
+theorem twoSpec_wf : Elf.specWF twoSpec = true := by decide +kernel
+
+/-- both hypotheses of `file_frame_named` for kernel `a`; the descriptor and the symbol range are listed -/
+theorem twoPoked_agrees : twoPoked ≠ twoFile ∧ Elf.AgreeOn twoFile twoPoked (Elf.namedRanges twoFile "a") ∧
+    (Elf.baseOff twoSpec, 64) ∈ Elf.namedRanges twoFile "a" ∧
+    (Elf.baseOff twoSpec + 128, 4) ∈ Elf.namedRanges twoFile "a" := by decide +kernel
+
+/-- `a` loads from the damaged file exactly as the description says (writer + frame + view-level
+loader), while `b` does not load the same -/
+example : Elf.loadBytes twoPoked "a" = some (loadKernel (Elf.specView twoSpec) "a") := by
+  rw [file_frame_named twoFile twoPoked "a" twoPoked_agrees.2.1]; exact writer_load twoSpec twoSpec_wf "a"
+example : (match loadKernel (Elf.specView twoSpec) "a" with
+      | .ok r => r.data == [0, 1, 2, 3] && r.version == 5
+      | _ => false) = true ∧
+    Elf.loadBytes twoPoked "b" ≠ Elf.loadBytes twoFile "b" := by
   decide +kernel
 
 end C13
